@@ -741,6 +741,11 @@ func (k *K) ReleaseAllParks() {
 var inKernel bool
 
 func kernelBlock(f func()) {
+	// SUT goroutines run from here on and may take the process down: what has been drawn so
+	// far goes to the choice log first
+	if choiceLogFlush != nil {
+		choiceLogFlush()
+	}
 	inKernel = false
 	f()
 	inKernel = true
